@@ -95,10 +95,33 @@ where
     let mut pvals = SymVals::<C::ScalarField>::new(seed ^ 0x77);
     let op = opaque_proof::<C>(&mut rng, &mut pvals, k, k, None, "");
     arena::set_ctx("verify");
+    let v_from = merlin::vlog::len();
     let mut vt = new_verifier_transcript(shape);
     let verifier = build_verifier(shape, &shr, &mut vt);
     let res = verifier.verify(&op.proof, &pc, &bp);
     arena::set_ctx("post");
+    // the step from the identity in r to "accepts exactly when both relations hold" needs r to be drawn after every
+    // element of the proof object has been absorbed: no absorption on the verifier's transcript may follow the squeeze of r
+    if matches!(res, Ok(()) | Err(R1CSError::VerificationError)) {
+        let log = merlin::vlog::since(0);
+        let vobj = first_new_obj(&log, v_from);
+        let r_pos = log.iter().enumerate().skip(v_from).filter(|(_, e)| e.op == "challenge" && e.label == b"r").map(|(i, _)| i).last();
+        // the transcript state r depends on: a fork of the verifier's transcript (position of the fork) or the transcript itself
+        let fork_pos = log.iter().enumerate().skip(v_from).filter(|(_, e)| e.op == "clone" && e.obj == vobj).map(|(i, _)| i).last();
+        let state_pos = match (r_pos, fork_pos) {
+            (Some(r), Some(f)) if f < r => Some(f),
+            (Some(r), _) => Some(r),
+            _ => None,
+        };
+        let last_append = log.iter().enumerate().skip(v_from).filter(|(_, e)| e.obj == vobj && e.op == "append").map(|(i, _)| i).last();
+        if let Some(sp) = state_pos {
+            job.check(
+                "the batching challenge r is derived from a transcript state that has absorbed every element of the proof object (no absorption follows it)",
+                last_append.map(|a| a < sp).unwrap_or(true),
+                format!("state of r at log position {}, last absorption at {:?}", sp, last_append),
+            );
+        }
+    }
     let sh = shr.borrow();
     job.check("builder ran without API errors", sh.errors.is_empty(), format!("{:?}", sh.errors));
     job.check(
